@@ -31,6 +31,8 @@ def ownership(model, t, summ, depth=0):
         return "fresh"
     if k == "op" and t[1] in ("Add", "Mult"):
         return "fresh"
+    if k == "idx" and strip_sites(t[2]) == ("op", "slice", (("const", "None"),) * 3):
+        return "fresh"  # ``x[:]`` of a list is a new list
     if k == "attr" and ownership(model, t[1], summ, depth + 1) == "fresh":
         # a table of an object constructed in this activation (e.g. the per-violation visitor's ``reprs``)
         return "fresh"
@@ -338,7 +340,7 @@ def provenance_rule(run, model, rule, dunder, what, own_first_ok=False):
                 continue
             first, second = parts
             fb, sb = _is_base_part(nf, first, dunder), _is_base_part(nf, second, dunder)
-            fo, so = _is_own(nf, first, dunder), _is_own(nf, second, dunder)
+            fo, so = _is_own(nf, first, dunder), _is_own(nf, second, dunder, need_checker=True)
             if fb and so:
                 continue
             if fo and sb:
@@ -407,10 +409,11 @@ def _own_stmts(loop_stmt):
     return out
 
 
-def _is_own(nf, t, dunder):
+def _is_own(nf, t, dunder, need_checker=False):
     """Own part: the list of the checker found on the namespace's own function, or a fresh empty list."""
     alts = t[1] if t[0] == "phi" else (t,)
     ok = True
+    from_checker = False
     for a in alts:
         if a[0] == "display" and a[1] == "list" and not a[2]:
             continue
@@ -419,9 +422,11 @@ def _is_own(nf, t, dunder):
             # the function of the namespace: derived from namespace[key] (possibly .__func__, or an accessor of it)
             ns = ("idx", ("param", nf.ns_p), ("param", nf.key_p))
             if fa is not None and any(s == ns for s in subterms(fa)) and not any(s == ("elem", ("param", nf.bases_p)) for s in subterms(fa)):
+                from_checker = True
                 continue
         ok = False
-    return ok
+    # an own part that can only be the empty list drops the contracts the member itself declares
+    return ok and (from_checker or not need_checker)
 
 
 def _is_base_part(nf, t, dunder):
@@ -546,6 +551,27 @@ def snapshot_provenance(run, model, rule):
                     ident = True
         if not ident and bad is None:
             bad = "equal names always raise: the very same snapshot object inherited along two paths of a diamond is reported as a conflict (no identity test)"
+        if ident and bad is None:
+            # ... and the identity test decides something: on one of its outcomes the rest of the iteration (the name
+            # conflict) is not reached
+            gg_ = GuardGraph(flow)
+            heads_ = set(n.id for n in flow.cfg.nodes if n.kind == "next")
+            raises_ = set(n.id for n in flow.cfg.nodes if n.kind == "raise")
+            tests_ = []
+            for n in flow.cfg.nodes:
+                if n.kind == "test" and n.ast is not None:
+                    exprs_ = [n.ast]
+                    if isinstance(n.ast, ast.Name):
+                        exprs_ = [st.value for st in ast.walk(fi.node) if isinstance(st, ast.Assign) and any(isinstance(tg, ast.Name) and tg.id == n.ast.id for tg in st.targets)] or [n.ast]
+                    if any(isinstance(c, ast.Compare) and len(c.ops) == 1 and (isinstance(c.ops[0], (ast.Is, ast.IsNot)) and not (isinstance(c.comparators[0], ast.Constant) and c.comparators[0].value is None) or (isinstance(c.ops[0], (ast.In, ast.NotIn)) and (isinstance(c.left, ast.Call) and src_of(c.left.func) == "id" or isinstance(c.left, ast.Name)))) for e in exprs_ for c in ast.walk(e)):
+                        tests_.append(n)
+            decides = False
+            for n in tests_:
+                for k, tgt in n.succ:
+                    if k in ("T", "F") and not (gg_.reach([tgt], None, heads_, follow_exc=False) & raises_):
+                        decides = True
+            if tests_ and raises_ and not decides:
+                bad = "the identity test `%s` decides nothing: the name conflict is reached whatever it says, and the very same snapshot object inherited along two paths of a diamond is reported as a conflict" % first_line(tests_[0].stmt)
         # names are recorded
         adds = [n for n in flow.cfg.nodes for call, c, a in calls_in(n) if isinstance(call.func, ast.Attribute) and call.func.attr == "add" and ([flow.term(x, n) for x in call.args] == [("attr", el, "name")] or (len(call.args) == 1 and isinstance(call.args[0], ast.Attribute) and call.args[0].attr == "name" and isinstance(call.args[0].value, ast.Name) and second.get(id(call)) == call.args[0].value.id))]
         if not adds and bad is None:
@@ -581,12 +607,24 @@ def shared_member_rule(run, model, rule):
                 guards.append(n)
         ok = False
         heads = set(h.id for h in nf.all_loops)
+        # the merge itself: the calls of the collapse helpers (for the accessors of a property they sit inside the loop
+        # over the accessors, the store of the new property after it)
+        merge_ids = set()
+        for n in cfg.nodes:
+            for call, c_, a_ in calls_in(n):
+                cf = fi_of_term(model, flow.term(call.func, n))
+                if cf is not None and cf.module.name == "_metaclass" and cf.name.startswith("_collapse_"):
+                    merge_ids.add(n.id)
         for g in guards:
             for k, tgt in g.succ:
                 if k != "T":
                     continue
                 seen = gg.reach([tgt], None, heads, follow_exc=False)
-                if not (seen & store_ids):
+                # the merge further down may sit behind a loop of its own (the walk over the bases): stop only at the
+                # loops the test itself runs in
+                own_heads = set(h.id for h in nf.all_loops if h.stmt is not g.stmt and any(x is g.stmt for x in ast.walk(h.stmt)))
+                seen_m = gg.reach([tgt], None, own_heads, follow_exc=False)
+                if not (seen & store_ids) and not (seen_m & merge_ids):
                     ok = True
         if ok:
             why = _shared_member_guard_shape(model, nf, guards)
@@ -680,6 +718,29 @@ def _shared_member_guard_shape(model, nf, guards):
                     walks_mro = True
         if not walks_mro:
             return g.stmt, "the re-use test looks at what the bases resolve `%s` to, not at every class they inherit from: a member re-used from an ancestor past an intermediate class that overrides it (`f = Grandparent.f`) is not recognised, the merge runs on the checker shared with that ancestor and changes the ancestor's own contracts" % nf.key_p
+        # ... and the member is looked up on the classes of that walk (``getattr(klass, key)``), not on the direct base
+        # again while the walk runs idle
+        def _walks(x):
+            return any((isinstance(y, ast.Attribute) and y.attr == "__mro__") or (isinstance(y, ast.Call) and (src_of(y.func) in ("inspect.getmro", "getmro") or (isinstance(y.func, ast.Attribute) and y.func.attr == "mro"))) for y in ast.walk(x))
+
+        over_mro = set()
+        changed = True
+        while changed:
+            changed = False
+            for st in ast.walk(nf.fi.node):
+                pairs = []
+                if isinstance(st, ast.comprehension) or isinstance(st, (ast.For, ast.AsyncFor)):
+                    pairs.append((st.iter, st.target))
+                elif isinstance(st, ast.Assign) and len(st.targets) == 1:
+                    pairs.append((st.value, st.targets[0]))
+                for src_e, tgt_e in pairs:
+                    if _walks(src_e) or any(isinstance(y, ast.Name) and y.id in over_mro for y in ast.walk(src_e)):
+                        for tg in ast.walk(tgt_e):
+                            if isinstance(tg, ast.Name) and tg.id not in over_mro:
+                                over_mro.add(tg.id)
+                                changed = True
+        if over_mro and not any(isinstance(m_.args[0], ast.Name) and m_.args[0].id in over_mro for m_ in mro) and not any(_walks(m_.args[0]) for m_ in mro):
+            return g.stmt, "the re-use test walks the classes the bases inherit from but looks `%s` up on %s, not on the classes of the walk: a member re-used from an ancestor past an intermediate class that overrides it (`f = Grandparent.f`) is not recognised, the merge runs on the checker shared with that ancestor and changes the ancestor's own contracts" % (nf.key_p, ", ".join(sorted(set("`%s`" % src_of(m_.args[0], 30) for m_ in mro))))
         # within one comprehension the member is looked up on one class: `isinstance(getattr(klass, key), property) and
         # func in (getattr(klass, key).fget, getattr(base, key).fset, ...)` compares with accessors of another class
         for e in exprs:
